@@ -224,7 +224,7 @@ def cleanup (s : HG) (isolatesOk connected relabelF : Bool) (h : Hints) : HG × 
   let r2 := andThen r1 (fun s => if connected then lccInPlace s else (s, .ok))
   andThen r2 (fun s => if relabelF then relabel s "label" h else (s, .ok))
 
-/-! ### deprecated aliases: warn, then forward every argument -/
+/-! ### deprecated aliases: warn, then forward every argument to the method of the new name -/
 
 def deprecated (r : HG × Outcome) : HG × Outcome := (r.1, if r.2.isErr then r.2 else .warned)
 
@@ -254,11 +254,14 @@ inductive Op where
   | freeze
   deriving Inhabited
 
-/-- ops that end in a method `freeze()` replaces by `frozen` before touching anything
-    (the aliases call `self.add_simplex` etc.) -/
+/-- the ops whose own method name `SimplicialComplex.freeze()` replaces by `frozen` (the list is checked
+    against the regenerated `Generated/FreezeTable.lean` in Props/C18S).  The deprecated aliases are *not* in that
+    list: `freeze()` leaves `add_edge`, `add_edges_from`, `add_weighted_edges_from`, `remove_edge`,
+    `remove_edges_from` callable; what stops them is the method they forward to (see `stepCore`). -/
 def Op.guardedByFreeze : Op → Bool
-  | .close .. | .cleanup .. | .freeze => false
-  | _ => true
+  | .addNode .. | .addNodesFrom .. | .removeNode .. | .removeNodesFrom .. | .addSimplex .. | .addSimplicesFrom ..
+  | .addWeightedSimplicesFrom .. | .removeSimplexId .. | .removeSimplexIdsFrom .. | .clear .. | .clearEdges => true
+  | _ => false
 
 /-- the unfrozen semantics of each op -/
 def stepCore (s : HG) : Op → HG × Outcome
@@ -273,11 +276,13 @@ def stepCore (s : HG) : Op → HG × Outcome
   | .removeSimplexIdsFrom es => removeSimplexIdsFrom s es
   | .close orders h => close s orders h
   | .cleanup i c r h => cleanup s i c r h
-  | .addEdge ms idx a h => deprecated (addSimplex s ms idx a h)
-  | .addEdgesFrom fmt items k a h => deprecated (addSimplicesFrom s fmt items k a h)
-  | .addWeightedEdgesFrom items k a h => deprecated (addWeightedSimplicesFrom s items k a h)
-  | .removeEdge e => deprecated (removeSimplexId s e)
-  | .removeEdgesFrom es => deprecated (removeSimplexIdsFrom s es)
+  -- `warn(...); return self.add_simplex(...)`: the forwarded call is a call of a public method that `freeze()`
+  -- replaces, so on a frozen complex it raises before anything is written (`guardF`)
+  | .addEdge ms idx a h => deprecated (guardF s (addSimplex s ms idx a h))
+  | .addEdgesFrom fmt items k a h => deprecated (guardF s (addSimplicesFrom s fmt items k a h))
+  | .addWeightedEdgesFrom items k a h => deprecated (guardF s (addWeightedSimplicesFrom s items k a h))
+  | .removeEdge e => deprecated (guardF s (removeSimplexId s e))
+  | .removeEdgesFrom es => deprecated (guardF s (removeSimplexIdsFrom s es))
   | .clear b => clear s b
   | .clearEdges => clearEdges s
   | .freeze => ({ s with frozen := true }, .ok)
